@@ -398,15 +398,31 @@ pub fn gen_fixed_beyond_end(tag: u8, doff: usize, eoff: usize, beyond: usize) ->
 pub fn gen_stack_fill(rng: &mut Rng, tag: u8, has_pkt: bool) -> Prog {
     let mut b = B::new(tag);
     let mut vals = [0i32; 64];
+    // One variant asks the helper for a "salt" first (0 for an execution the harness started,
+    // something else for a nested one) and adds it to every slot value: when the helper later runs
+    // this very program again on the same VM, the nested execution writes other values than its caller.
+    let with_helper = rng.chance(2, 3);
+    let salted = with_helper && rng.chance(1, 3);
+    if salted {
+        b.i(MOV64_IMM, 1, 0, 0, 0);
+        b.i(MOV64_IMM, 2, 0, 0, tag as i32);
+        b.i(MOV64_IMM, 3, 0, 0, crate::vmwrap::GET_SALT as i32);
+        b.i(MOV64_IMM, 4, 0, 0, 0);
+        b.i(MOV64_IMM, 5, 0, 0, 0);
+        b.i(CALL, 0, 0, 0, KEY_PROBE_STACK as i32);
+        b.i(MOV64_REG, 9, 0, 0, 0); // r9 = salt (the tag in r9 has served its purpose: it is byte 4 of the program)
+    }
     for (i, v) in vals.iter_mut().enumerate() {
         *v = rng.next_u64() as i32 | 1;
         b.i(MOV64_IMM, 2, 0, 0, *v);
+        if salted {
+            b.i(0x0f, 2, 9, 0, 0); // add64 r2, r9
+        }
         b.i(0x7b, 10, 2, -512 + 8 * i as i16, 0); // stxdw [r10-512+8i], r2
     }
     // the middle part: nothing here may touch the 512 bytes
     b.i(MOV64_IMM, 6, 0, 0, rng.next_u64() as i32);
     b.i(MOV64_IMM, 7, 0, 0, (rng.next_u64() as i32) | 1);
-    let with_helper = rng.chance(2, 3);
     let mut min_pkt = 0;
     for _ in 0..rng.range(2, 6) {
         match rng.below(6) {
@@ -431,7 +447,7 @@ pub fn gen_stack_fill(rng: &mut Rng, tag: u8, has_pkt: bool) -> Prog {
         b.i(ADD64_IMM, 1, 0, 0, -512 + 8 * rng.below(64) as i32);
         b.i(MOV64_IMM, 2, 0, 0, tag as i32);
         // half of the time the helper runs another program (on a VM of its own) before it returns
-        b.i(MOV64_IMM, 3, 0, 0, if rng.chance(1, 2) { crate::vmwrap::REENTER as i32 } else { 3 });
+        b.i(MOV64_IMM, 3, 0, 0, if salted { crate::vmwrap::REENTER_SAME as i32 } else if rng.chance(1, 2) { crate::vmwrap::REENTER as i32 } else { 3 });
         b.i(MOV64_IMM, 4, 0, 0, 4);
         b.i(MOV64_IMM, 5, 0, 0, 5);
         b.i(CALL, 0, 0, 0, KEY_PROBE_STACK as i32);
@@ -647,7 +663,7 @@ pub fn gen_mixed(rng: &mut Rng, tag: u8, kind: Kind, p0len: usize, mbuff_len: us
             while i + 8 <= b.v.len() {
                 if b.v[i] == CALL && (b.v[i + 1] >> 4) == 1 {
                     let disp = callee_at - (i as i32 / 8 + 1);
-                    clash |= MIXER_KEYS.contains(&(disp as u32)) || disp as u32 == KEY_NEVER || (0x9000..0x9100).contains(&disp);
+                    clash |= MIXER_KEYS.contains(&(disp as u32)) || disp as u32 == KEY_NEVER || (0x9000..0x9100).contains(&disp) || (0x100..0x160).contains(&disp);
                 }
                 if b.v[i] == LD_DW_IMM {
                     i += 8;
